@@ -160,6 +160,12 @@ def gen_scenario(seed, profile=None):
             k = rng.randint(0, 3)
             fl = [rng.randrange(len(filters)) for _ in range(k)]
             fl = [j for j in fl if filters[j]["cls"] not in ("SkipExportGlyphsFilter", "SkipExportGlyphsIFilter")]
+            if rng.random() < 0.5:
+                # a *post* filter that resolves components after the default filters ran
+                # (it reads interpolated glyphs where a sparse master lacks a base)
+                filters.append({"cls": rng.choice(["DecomposeComponentsFilter", "FlattenComponentsFilter",
+                                                   "DecomposeTransformedComponentsFilter"]), "pre": False})
+                fl.append(len(filters) - 1)
             gl = info["glyphs"]
             st = {"op": "preproc_run", "world": wi, "kind": kind, "filters": fl,
                   "ellipsis": rng.random() < 0.5,
